@@ -176,9 +176,12 @@ def render(spec):
             w.append("    def __delattr__(self, name):\n        LOG.append(('body', '__delattr__'))\n        object.__delattr__(self, name)\n")
         w.append(MEMBERS)
     ch = spec["child"]
+    if ch and ch.get("mixin"):
+        # a contract-less mix-in: its public method reaches the child over another path than the invariants do
+        w.append("class Mixin:\n    def mx(self):\n        LOG.append(('body', 'mx'))\n        return 5\n")
     if ch:
         w.append(decos(cinv) + ("@dataclasses.dataclass(slots=True)\n" if ch.get("dc_slots") else "@dataclasses.dataclass\n" if ch.get("dc_plain") else "")
-                 + "class Child(Root):\n")
+                 + "class Child({}):\n".format({None: "Root", "after": "Root, Mixin", "before": "Mixin, Root"}[ch.get("mixin")]))
         if ch.get("dc_slots") or ch.get("dc_plain"):
             # dataclass(slots=True) creates the class a second time from the namespace of the first one
             w.append("    z: int = 0\n")
@@ -224,7 +227,9 @@ def render(spec):
         if ch.get("late_members"):
             # members given to the class after it has been created (as class decorators and registries do)
             w.append("def _late(self):\n    LOG.append(('body', 'late'))\n    return 4\ndef _late_get(self):\n    LOG.append(('body', 'lp.get'))\n    return 4\n"
-                     "Child.late = _late\nChild.lp = property(_late_get)\n")
+                     "Child.late = _late\nChild.lp = property(_late_get)\n"
+                     # ... and an inherited property extended after the fact: the getter is the (already wrapped) one of the base, the setter is new
+                     "def _late_set(self, value):\n    LOG.append(('body', 'lq.set'))\nChild.lq = Child.p.setter(_late_set)\n")
     return "".join(w)
 
 
@@ -253,7 +258,9 @@ OPS = {
     "sd": ("call", lambda o, ns: o.sd(1), "sd"),
     "late": ("call", lambda o, ns: o.late(), "late"),
     "lp.get": ("call", lambda o, ns: o.lp, "lp.get"),
+    "lq.set": ("pset", lambda o, ns: setattr(o, "lq", 5), "lq.set"),
     "extra": ("call", lambda o, ns: o.extra(), "extra"),
+    "mx": ("call", lambda o, ns: o.mx(), "mx"),
     "_cprot": ("never", lambda o, ns: o._cprot(), "_cprot"),
 }
 
@@ -267,7 +274,9 @@ def ops_for(spec):
     if spec["child"] and spec["child"]["adds"]:
         ops += ["extra", "_cprot"]
     if spec["child"] and spec["child"].get("late_members"):
-        ops += ["late", "lp.get"]
+        ops += ["late", "lp.get", "lq.set"]
+    if spec["child"] and spec["child"].get("mixin"):
+        ops += ["mx"]
     if spec["style"] in ("plain", "slots", "getattribute") and not spec["child"]:
         ops += ["reinit_boom"]   # a constructor call on the existing object that fails in its body
     return ops
@@ -312,6 +321,10 @@ def specs(tier):
                         if ctor in ("none", "first") and not overrides and style in ("plain", "no_init"):
                             out.append({"base": "DBC", "style": style, "invs": invs,
                                         "child": {"invs": cinvs, "ctor": ctor, "overrides": overrides, "adds": adds, "late_members": True}})
+                        if ctor in ("none", "first") and not overrides and style in ("plain", "no_init"):
+                            for mixin in ("after", "before"):
+                                out.append({"base": "DBC", "style": style, "invs": invs,
+                                            "child": {"invs": cinvs, "ctor": ctor, "overrides": overrides, "adds": adds, "mixin": mixin}})
                         if ctor == "none" and style == "no_init":
                             # a plain (non-slots) dataclass: the constructor is generated and assigned AFTER the class has been created
                             out.append({"base": "DBC", "style": style, "invs": invs,
@@ -335,7 +348,7 @@ def feats(spec, op=None, seq=None):
     ch = spec["child"]
     return {"base": spec["base"], "style": spec["style"], "invs": "".join(spec["invs"]),
             "child": None if not ch else "{}|{}|{}{}{}".format("".join(ch["invs"]), ch["ctor"], "o" if ch["overrides"] else "-", "a" if ch["adds"] else "-",
-                                                              ("x" if ch.get("extends_prop") else "") + ("s" if ch.get("own_setattr") else "") + ("d" if ch.get("dc_slots") else "") + ("D" if ch.get("dc_plain") else "") + ("L" if ch.get("late_members") else "") + ("r" if ch.get("via_root") else "") + ("n" if ch.get("own_new") else "")),
+                                                              ("x" if ch.get("extends_prop") else "") + ("s" if ch.get("own_setattr") else "") + ("d" if ch.get("dc_slots") else "") + ("D" if ch.get("dc_plain") else "") + ("L" if ch.get("late_members") else "") + ("r" if ch.get("via_root") else "") + ("n" if ch.get("own_new") else "") + ({"after": "m", "before": "M"}.get(ch.get("mixin"), ""))),
             "child_invs": None if not ch else "".join(ch["invs"]), "ctor": None if not ch else ch["ctor"],
             "op": op, "first_op": seq[0] if seq else None,
             "has_setattr_inv": any(c in "SA" for c in spec["invs"] + (ch["invs"] if ch else [])),
